@@ -199,7 +199,9 @@ def o_c04(ctx, desc, obs, model, kw):
                 hit = True
                 bad = {col: r[col] for col in ("vin", "vout", "iin", "iout", "pwr", "loss") if r[col] != 0.0}
                 if bad:
-                    ctx.oracle(desc, "dead_supply_all_zero", k, {}, {"phase": ph, "row": r["name"], "nonzero": bad})
+                    # numpy's allclose has a fixed absolute tolerance of 1e-8: a quantity below it never makes the solver iterate
+                    ctx.oracle(desc, "dead_supply_all_zero", k, {"below_numpy_atol": all(abs(x) < 1e-8 for x in bad.values())},
+                               {"phase": ph, "row": r["name"], "nonzero": bad})
             elif odead[r["name"]]:
                 hit = True
                 if r["vout"] != 0.0:
@@ -428,12 +430,14 @@ def o_c08(ctx, desc, obs, rails, kw):
             if g is None:
                 ctx.oracle(desc, "rail_row_present", "rail_rep", {}, det)
                 continue
-            t = sum(ptol(m, kw) for m in members)
+            # rail_rep() re-runs the very same deterministic solve: the rail cells are sums of the SAME numbers the solve() table
+            # shows, so only float summation order separates them - no solver tolerance enters
+            t = 1e-15
             if not solved.close(g["volt"], rows[owner[rail]]["vout"]):
                 ctx.oracle(desc, "rail_voltage", "rail_rep", {}, dict(det, owner_vout=rows[owner[rail]]["vout"]))
             for col, src in (("curr", "iin"), ("pwr", "pwr"), ("loss", "loss")):
                 s = sum(m[src] for m in members)
-                if abs(g[col] - s) > t + 1e-9 * abs(s):
+                if abs(g[col] - s) > t + 1e-9 * sum(abs(m[src]) for m in members):
                     ctx.oracle(desc, "rail_sum_" + col, "rail_rep", {}, dict(det, expected=s))
             wu = set()
             for m in members:
